@@ -235,4 +235,35 @@ theorem closeSilent_closed (s : St) (r : Bool) :
     (closeSilent s r).phase = .closed ∧ Ev.closed ∈ (closeSilent s r).out := by
   cases r <;> simp [closeSilent, St.emit, pushEv]
 
+
+/-- whatever the peer sends and however it is segmented, the connection never records an uncaught exception:
+    every rejection of peer input is `w400 + closed` (HTTPInputError) or `closed` (unsatisfiable read).
+    (The model has the `uncaught` event; before the `fix:` commits two transitions produced it.) -/
+theorem never_uncaught (cfg : Cfg) (segs : List Str) : Ev.uncaught ∉ (run cfg init segs).out := by
+  intro h
+  have := unc_run cfg init segs h
+  simp [init] at this
+
+theorem never_uncaught_eof (cfg : Cfg) (segs : List Str) : Ev.uncaught ∉ (eof (run cfg init segs)).out := by
+  intro h
+  apply never_uncaught cfg segs
+  unfold eof at h
+  split at h
+  · exact h
+  · exact unc_emit _ _ (by simp) h
+  · exact unc_emit _ _ (by simp) h
+
+/-! ## tie-only goals (stated, not proved) -/
+
+/-- the incremental machine on the whole stream agrees with the batch reader `Spec.readAll` (finished requests and
+    how the stream ends).  Checked on every generated case through impl = Model and impl ⊨ Spec. -/
+def reqOf : Ev → Option (Str × Str × Str × List (Str × Str))
+  | .req m t v h => some (m, t, v, h)
+  | _ => none
+
+def model_eq_spec_goal : Prop :=
+  ∀ (cfg : Cfg) (bytes : Str),
+    ((events (run cfg init [bytes])).filterMap reqOf).take (Spec.readAll cfg bytes).1.length
+      = (Spec.readAll cfg bytes).1.map (fun r => (r.m, r.t, r.v, r.h))
+
 end TornadoModel.C01
